@@ -150,6 +150,22 @@ fn check(case: &Case10, ctx: &mut Ctx) -> Verdict {
                 }
                 Ok(Ok(())) => {}
             }
+            // the same escape after its complement was used earlier in the same pattern (and inside a class next to
+            // it): the set an escape denotes must not depend on what else the pattern mentions
+            if *chunk % 16 == 0 || *chunk == 1 {
+                let comp = Esc { kind: esc.kind.clone(), neg: !esc.neg }.render();
+                for form in [format!("{comp}{{0}}{atom}"), format!("(?:{comp}|{atom}){{0}}{atom}"), format!("[{atom}-[{comp}]]")] {
+                    ctx.obs.eval(chars.len() as u64);
+                    match bulk_check(&form, "", &chars, &want, ctx) {
+                        Err(v) => return v,
+                        Ok(Err(what)) => {
+                            return Verdict::Fail(Failure { sub: "membership(mixed polarity)".into(), expected: format!("{form} matches the same characters as {atom}"), actual: what, detail: format!("code points U+{:04X}..U+{:04X}", chunk * CHUNK, (chunk + 1) * CHUNK - 1) })
+                        }
+                        Ok(Ok(())) => {}
+                    }
+                }
+                ctx.obs.label("mixed-polarity-forms");
+            }
             // boundaries of the set inside this chunk: checked again one character at a time through ^E$
             let mut boundary: Vec<char> = vec![];
             for w in chars.windows(2) {
